@@ -295,9 +295,9 @@ Definition qp_header (m : bytes) (helo : bytes) (b len : nat) (body_recode : boo
   | MpSyntax => Ok (Die 2%N st)
   | MpYes _ _ =>
       if negb (Nat.eqb (snd cenc) 0) then
-        if Nat.ltb header after_cenc then Crash 32%N else
         do st1 <- wrap_header m b (fst cenc) st;
-        do st2 <- wrap_header m (b + after_cenc) (header - after_cenc) st1;
+        (* length buf + header - cenc.s - cenc.len: were it negative, need_recode() and send_plain() would do nothing *)
+        do st2 <- (if Nat.ltb header after_cenc then Ok st1 else wrap_header m (b + after_cenc) (header - after_cenc) st1);
         Ok (Done (header, mp) st2)
       else
         do st1 <- wrap_header m b header st; Ok (Done (header, mp) st1)
@@ -305,10 +305,9 @@ Definition qp_header (m : bytes) (helo : bytes) (b len : nat) (body_recode : boo
       if negb body_recode then
         do st1 <- wrap_header m b header st; Ok (Done (header, mp) st1)
       else if negb (Nat.eqb (snd cenc) 0) then
-        if Nat.ltb header after_cenc then Crash 32%N else
         do st1 <- wrap_header m b (fst cenc) st;
         let st2 := recodeheader helo st1 in
-        do st3 <- wrap_header m (b + after_cenc) (header - after_cenc) st2;
+        do st3 <- (if Nat.ltb header after_cenc then Ok st2 else wrap_header m (b + after_cenc) (header - after_cenc) st2);
         Ok (Done (header, mp) st3)
       else
         do st1 <- wrap_header m b header (recodeheader helo st); Ok (Done (header, mp) st1)
